@@ -112,6 +112,12 @@ structure Layout where
   recLen : Nat → Nat   -- object number ↦ bytes of `id gen obj … endobj\n`
   xrefLen : SaveInfo → Nat   -- bytes of the cross-reference stream object of that save
   tailLen : SaveInfo → Nat   -- bytes of `\nstartxref\n…\n%%EOF`
+  /-- what else the environment contributes to one `save`: does the *typed* reload of the trailer at its end
+      (`Trailer::from_dict`: `/Root` as `Catalog` with its page tree root and the other members loaded eagerly,
+      `/Info`, `/Encrypt`) succeed? The model knows values only as opaque `V`; whether a value loads as the type the
+      trailer wants is the business of the typed readers (C15). `false`: `save` fails *after* its revision was
+      appended. -/
+  typed : Bool
 
 variable {V : Type}
 
@@ -344,14 +350,30 @@ def save (P : Params V) (L : Layout) (d : Doc V) : Doc V × Out SaveInfo :=
     | some rows =>
       let st3 := commit P L d pr w refs rows
       let info : SaveInfo := saveInfoOf pr w refs rows
+      -- `*trailer = Trailer::from_dict(trailer_dict, &self.resolver())?`: the revision is in the backend, the table
+      -- and the pending values are those of a completed save; on failure only the caller's trailer is not replaced
       match loadTrailer st3 d.tr.root pr.infoRef d.tr.prev with
-      | .ok tr => (⟨st3, tr⟩, .ok info)
+      | .ok tr => if L.typed then (⟨st3, tr⟩, .ok info) else (⟨st3, d.tr⟩, .err)
       | .err => (⟨st3, d.tr⟩, .err)
       | .panic => (⟨st3, d.tr⟩, .panic)
       | .oof => (⟨st3, d.tr⟩, .oof)
   | (w, .err) => ({ d with st := { pr.st2 with refs := w.refs.dropLast } }, .err)
   | (w, .panic) => ({ d with st := { pr.st2 with refs := w.refs } }, .panic)
   | (w, .oof) => ({ d with st := { pr.st2 with refs := w.refs } }, .oof)
+
+/-- the `SaveInfo` of the revision `save` appends, if it gets as far as appending one (`write_revision` returned
+    `Ok`): whatever happens afterwards, that revision stays in the backend -/
+def commitInfo (P : Params V) (L : Layout) (d : Doc V) : Option SaveInfo :=
+  if d.st.refs.length + 2 > MAX_ID then none
+  else
+  let pr := prep d
+  match writeChanges P L pr.st2.start pr.st2.changes ⟨pr.st2.refs, pr.st2.objs, pr.st2.len⟩ with
+  | (w, .ok ()) =>
+    let refs := w.refs.set pr.xid (.raw (w.len - pr.st2.start) 0)
+    match rowsOf (refs.take (pr.xid + 1)) with
+    | some rows => some (saveInfoOf pr w refs rows)
+    | none => none
+  | _ => none
 
 /-! ### loading (`read_xref_table_and_trailer`, `File::load_data`) -/
 
